@@ -35,7 +35,12 @@ func c15cfg(todoMask int) *Cfg {
 	}
 	su := Service{Name: "su", Constructor: P("pk.New2")}
 	if todoMask&8 != 0 {
-		su = Service{Name: "su", Todo: P(true), Constructor: P("this is ignored"), Getter: P("Must bad InContext")}
+		// a todo service keeps whatever a draft or an earlier file says about it; none of it is validated or followed:
+		// undeclared references, a reference back to its own dependant, malformed attributes
+		su = Service{Name: "su", Todo: P(true), Constructor: P("this is ignored"), Getter: P("Must bad InContext"),
+			Args:   []any{"@sd", "%noSuchParam%", "@noSuchService", "%pd%"},
+			Calls:  []Call{{Method: "Set1", Args: []any{"@su", "%alsoMissing%-x"}}},
+			Fields: []KV{{"F1", "@sp"}, {"F2", "!tagged nobody"}}, Tags: []Tag{{Name: "tg"}}}
 	}
 	cfg.Services = []Service{st, su,
 		{Name: "sd", Constructor: P("pk.New"), Args: []any{"@st", "%pd%"}, Fields: []KV{{"F1", "@su"}}},
@@ -134,6 +139,26 @@ func init() {
 					}
 				})
 			}
+			// message forms of %todo("...")%: the documented error carries the given message whatever it contains
+			w.Case("messages", func(c *C) {
+				msgs := []string{"", "x", "set me at run time", "à faire – później 😀", `say \"hi\"`, "a, (b), [c]", "tab\there", "semi;colon: and 'quotes'", "very " + strings.Repeat("long ", 60)}
+				cfg := &Cfg{Meta: stdMeta()}
+				var ops []ProbeOp
+				for i, m := range msgs {
+					n := fmt.Sprintf("pm%d", i)
+					cfg.Params = append(cfg.Params, Param{n, `%todo("` + m + `")%`}, Param{n + "user", "<%" + n + "%>"})
+					cfg.Services = append(cfg.Services, Service{Name: "s" + n, Constructor: P("pk.New"), Args: []any{"%" + n + "%"}})
+					ops = append(ops, op("param", n), op("param", n+"user"), op("get", "s"+n))
+				}
+				for i := range msgs {
+					n := fmt.Sprintf("pm%d", i)
+					ops = append(ops, ProbeOp{Op: "overrideParam", Name: n, Val: &ProbeSpec{Kind: "value", V: "now set"}}, op("param", n+"user"), op("get", "s"+n))
+				}
+				bc := &BCase{ID: "messages", Cfg: cfg, Sessions: []BSession{{Ops: append(ops, op("counters", ""))}}}
+				c.Distinct("nontrivial", c.ID)
+				outs, err := w.RunBehaviour([]*BCase{bc})
+				c15oracle(c, outs, err)
+			})
 			depth := 4
 			if !w.Env.Quick() {
 				depth = 5
